@@ -597,6 +597,15 @@ class Run(RunBase):
                 copy.deepcopy(self.net).translate_rotate(np.array([5.0, 5.0]), 0.7)
             elif how == "derive":
                 LaneletNetwork.create_from_lanelet_list(self.net.lanelets)
+            elif how == "derive-and-move":
+                # networks derived from this one's lanelets are networks of their own: working on them (moving them,
+                # removing from them) is no business of this one
+                for d in (LaneletNetwork.create_from_lanelet_list(self.net.lanelets, cleanup_ids=False),
+                          LaneletNetwork.create_from_lanelet_list(self.net.lanelets, cleanup_ids=True),
+                          LaneletNetwork.create_from_lanelet_network(self.net)):
+                    d.translate_rotate(np.array([40.0, -25.0]), 0.5)
+                    if d.lanelets:
+                        d.remove_lanelet(d.lanelets[0].lanelet_id)
         except Exception:  # noqa   totality of these operations is not C06's business
             self.probe("bystander-raised")
         return "ok"
@@ -779,7 +788,7 @@ def _querier(rng, run, cfg):
 def _bystander(rng, run, cfg):
     n_draw = 0
     while True:
-        how = rng.pick(["draw", "compare", "copy-and-drop", "derive"])
+        how = rng.pick(["draw", "compare", "copy-and-drop", "derive", "derive-and-move"])
         if how == "draw":
             n_draw += 1
             if n_draw > 1:
@@ -832,7 +841,7 @@ class C06(Property):
                 "shape_kinds": sorted(rng.subset(["rect", "circ", "poly", "group"], 0.6, at_least=1))}
 
     def gen_universe(self, rng, cfg):
-        ids = gen.IdAlloc(rng, 1, 400)
+        ids = gen.IdAlloc(rng, 1, 400, zero=0.15)
         lattice = rng.chance(0.25)
         fine = (not lattice) and rng.chance(0.15)
         if fine:
